@@ -1,10 +1,31 @@
-import AcraModel.Basic.Bytes
-/-! Driver ops for C15. -/
+import AcraModel.Envelope.Poison
+import AcraModel.Crypto.Shim
+import Driver.C01
+/-! Driver ops for C15 (poison records). -/
 namespace Driver.C15
-open AcraModel
+open AcraModel AcraModel.Envelope Driver.C01
+
+def C := shimOps
+
+def scanT : ScanOut × Nat → String
+  | (.ok b _, a) => s!"ok {hexOf b} {a}"
+  | (.fatal, a) => s!"fatal {a}"
+  | (.panic, _) => "panic"
 
 def handle (op : String) (args : List String) : Option String :=
   match op, args with
+  | "create", [k, pub, privs, sym, syms, dl, rnd] => do
+      pure (outHex (createPoison C (← parseKV pub privs sym syms) (← parseKind k) (← dl.toNat?) (← ofHex rnd)))
+  | "proxy", [has, cbErr, ppub, pprivs, psym, psyms, pub, privs, sym, syms, d] => do
+      let cfg : PoisonCfg := { hasCallbacks := has == "true", callbackErr := cbErr == "true", pk := ← parseKV ppub pprivs psym psyms }
+      pure (scanT (proxyOnColumn C cfg (← parseKV pub privs sym syms) (← ofHex d)))
+  | "translator", [has, cbErr, ppub, pprivs, psym, psyms, pub, privs, sym, syms, k, d] => do
+      let cfg : PoisonCfg := { hasCallbacks := has == "true", callbackErr := cbErr == "true", pk := ← parseKV ppub pprivs psym psyms }
+      let (o, a) := translatorDecrypt C cfg (← parseKV pub privs sym syms) (← parseKind k) (← ofHex d)
+      pure (match o with
+        | .ok m => s!"ok {hexOf m} {a}"
+        | .err => s!"err {a}"
+        | .panic => "panic")
   | _, _ => none
 
 end Driver.C15
